@@ -27,6 +27,7 @@ const rule = "case = one handler of a supported return shape (string, []byte, er
 	"non-trivial = empty / nil / zero results, a nil error in a pair, a pointer or interface result, a non-200 status, a position other than the route handler, or a custom ReturnHandler; distinct by case text"
 
 var assumptions = []string{
+	"a handler that cancels its own request and then returns a value: the value is rendered and the chain stops there (C03: return values are rendered first, then the cancellation is looked at)",
 	"a handler that has already flushed / sent a status line / written itself and then returns a value: the value is rendered all the same ('after a handler returns, its return values having been rendered first', C03) - only the status line is taken by then",
 	"int statuses are valid status codes (net/http panics on others)",
 	"(int, \"\") sends the status with an empty body: 'uses the int as status' (DESIGN.md section 6)",
@@ -419,7 +420,11 @@ func checkCase(c Case) (out evid.Outcome) {
 		nt = true
 		out.Classes = append(out.Classes, "value-returned-earlier-in-chain")
 	}
+	if len(c.S)%2 == 0 {
+		out.Classes = append(out.Classes, "underlying-writer-with-WriteString")
+	}
 	if c.Own != "" {
+		out.Classes = append(out.Classes, "own:"+c.Own)
 		nt = true
 		out.Classes = append(out.Classes, "handler-wrote-before-returning")
 	}
